@@ -1,7 +1,144 @@
 import Model.Data
+import Proofs.Lemmas.Data
+/-!
+# C05 — message content crosses DATA framing unchanged under any segmentation
+
+Property theorems only. Model: `Model/Data.lean` (transliteration of `DataSender` / `DataReader`).
+-/
 namespace Slimta.C05
 open Slimta Slimta.Data
 
-theorem placeholder : (1 : Nat) = 1 := rfl
+/-- "plus a final CRLF when the original did not end with one" (the empty message stays empty). -/
+def normalize (m : Bytes) : Bytes := if m = [] ∨ endsWith m CRLF = true then m else m ++ CRLF
+
+/-- The message is handed to the sender in parts cut at line boundaries: a non-empty part starts
+    either the message or right after a part that ended in LF (`atLineStart`). -/
+def LineBoundarySplit (atLineStart : Bool) : List Bytes → Prop
+  | [] => True
+  | p :: ps => (p ≠ [] → atLineStart = true) ∧
+      LineBoundarySplit (if p = [] then atLineStart else p.getLast? == some 10) ps
+
+theorem parts_stuff (parts : List Bytes) (f : Bool) (h : LineBoundarySplit f parts) :
+    (parts.map processPart).flatten = stuff f parts.flatten := by
+  induction parts generalizing f with
+  | nil => simp [stuff]
+  | cons p ps ih =>
+    obtain ⟨h1, h2⟩ := h
+    by_cases hp : p = []
+    · subst hp
+      simp only [if_true] at h2
+      simp [processPart, stuff, ih f h2]
+    · have hf : f = true := h1 hp
+      subst hf
+      simp only [hp, if_false] at h2
+      simp only [List.map_cons, List.flatten_cons, processPart, ih _ h2, stuff_append, hp, if_false]
+
+/-- The whole-stream reader on what the sender wrote, followed by any trailing bytes. -/
+theorem feed_send (parts : List Bytes) (hb : LineBoundarySplit true parts) (trail : Bytes) :
+    feed {} (send parts ++ trail) =
+      { data := normalize parts.flatten, cur := [], eod := true, after := trail } := by
+  unfold send
+  rw [parts_stuff parts true hb]
+  generalize parts.flatten = m
+  rw [List.append_assoc, feed_append]
+  obtain ⟨h1, h2, h3, h4, h5⟩ := feed_stuff m true {} rfl (by intro r hr; simp at hr) (by simp)
+  generalize feed {} (stuff true m) = s1 at *
+  simp at h3 h4
+  unfold endMarker normalize
+  by_cases hc : m = [] ∨ endsWith m CRLF = true
+  · have hcur : s1.cur = [] := by
+      rw [h5]
+      rcases hc with rfl | hc
+      · simp
+      · have := getLast_of_endsWith_crlf m hc
+        simp [this.1, this.2]
+    have hcond : (m.isEmpty || endsWith m CRLF) = true := by
+      rcases hc with rfl | hc
+      · simp
+      · simp [hc]
+    rw [if_pos hcond, if_pos hc, feed_marker s1 h1 hcur]
+    rw [hcur] at h3
+    cases s1
+    simp_all
+  · have hcond : (m.isEmpty || endsWith m CRLF) = false := by
+      simp at hc
+      simp [hc.1, hc.2]
+    rw [hcond, if_neg hc]
+    simp only [Bool.false_eq_true, if_false]
+    have : ([13, 10, 46, 13, 10] : Bytes) ++ trail = 13 :: 10 :: ([46, 13, 10] ++ trail) := rfl
+    rw [this, feed_cons, feed_cons, step_other s1 h1 13 (by decide),
+      step_lf _ (by simpa using h1) (okCur_snoc s1.cur 13 h2 (by intro _; decide)),
+      feed_marker _ (by simpa using h1) (by simp)]
+    have h6 : unstuffLine (s1.cur ++ [13]) = unstuffLine s1.cur ++ [13] :=
+      unstuffLine_snoc s1.cur 13 (by intro _; decide)
+    cases s1
+    simp_all [CRLF]
+    rw [← List.append_assoc, h3]
+
+/-- **Round trip and exact consumption.** For every message, split into sender parts at line
+    boundaries, followed by any trailing bytes, delivered as any initial `recv_buffer` plus any
+    sequence of non-empty `recv()` results: the reader returns the normalised message and what is
+    left (new `recv_buffer` plus unread socket data) is exactly the trailing bytes. -/
+theorem data_roundtrip (parts : List Bytes) (hb : LineBoundarySplit true parts)
+    (trail buf0 : Bytes) (segs : List Bytes) (hne : ∀ s ∈ segs, s ≠ [])
+    (hs : buf0 ++ segs.flatten = send parts ++ trail) :
+    ∃ r, run none buf0 segs = .ok r ∧ r.data = normalize parts.flatten ∧
+      r.recvBuffer ++ r.unread.flatten = trail := by
+  have hfeed : feed (addLines {} buf0) segs.flatten
+      = { data := normalize parts.flatten, cur := [], eod := true, after := trail } := by
+    rw [addLines_eq_feed, ← feed_append, hs, feed_send parts hb trail]
+  have := (recvLoop_spec segs (addLines {} buf0) 0 hne).1 (by rw [hfeed])
+  rw [hfeed] at this
+  exact this
+
+/-- The reader's observable result: `(data, recv_buffer ++ unread)` or the error. -/
+def observable : Except Err Result → Except Err (Bytes × Bytes)
+  | .ok r => .ok (r.data, r.recvBuffer ++ r.unread.flatten)
+  | .error e => .error e
+
+/-- **Segmentation independence.** Two deliveries of the same byte stream (any initial buffers,
+    any cuts into non-empty reads) give the same data and leave the same bytes, for *every*
+    stream, not only sender output. -/
+theorem data_segmentation_independent (buf0 buf0' : Bytes) (segs segs' : List Bytes)
+    (hne : ∀ s ∈ segs, s ≠ []) (hne' : ∀ s ∈ segs', s ≠ [])
+    (h : buf0 ++ segs.flatten = buf0' ++ segs'.flatten) :
+    observable (run none buf0 segs) = observable (run none buf0' segs') := by
+  have e1 : feed (addLines {} buf0) segs.flatten = feed {} (buf0 ++ segs.flatten) := by
+    rw [addLines_eq_feed, ← feed_append]
+  have e2 : feed (addLines {} buf0') segs'.flatten = feed {} (buf0 ++ segs.flatten) := by
+    rw [addLines_eq_feed, ← feed_append, h]
+  have s1 := recvLoop_spec segs (addLines {} buf0) 0 hne
+  have s2 := recvLoop_spec segs' (addLines {} buf0') 0 hne'
+  rw [e1] at s1
+  rw [e2] at s2
+  unfold run
+  cases hq : (feed {} (buf0 ++ segs.flatten)).eod with
+  | true =>
+    obtain ⟨r1, hr1, hd1, ha1⟩ := s1.1 hq
+    obtain ⟨r2, hr2, hd2, ha2⟩ := s2.1 hq
+    simp [hr1, hr2, observable, hd1, hd2, ha1, ha2]
+  | false =>
+    simp [s1.2 hq, s2.2 hq]
+
+/-- The reader never returns before a complete end-of-data line has arrived (it asks for more
+    input instead), so content is never cut short by segmentation. -/
+theorem no_result_without_eod (buf0 : Bytes) (segs : List Bytes) (hne : ∀ s ∈ segs, s ≠ [])
+    (h : (feed {} (buf0 ++ segs.flatten)).eod = false) :
+    run none buf0 segs = .error .wouldBlock := by
+  have s1 := recvLoop_spec segs (addLines {} buf0) 0 hne
+  rw [addLines_eq_feed, ← feed_append] at s1
+  unfold run
+  rw [addLines_eq_feed]
+  exact s1.2 h
+
+/-! ### non-vacuity: the hypotheses are met by concrete non-trivial values -/
+
+example : LineBoundarySplit true [[46, 97, 10], [], [46, 46, 13, 10], [97]] := by
+  simp [LineBoundarySplit]
+
+example : ∃ r, run none [46, 46] [[97, 10, 46], [46, 46, 13, 10, 97, 13, 10, 46], [13, 10, 81]] = .ok r ∧
+    r.data = [46, 97, 10, 46, 46, 13, 10, 97, 13, 10] ∧ r.recvBuffer ++ r.unread.flatten = [81] :=
+  data_roundtrip [[46, 97, 10], [], [46, 46, 13, 10], [97]] (by simp [LineBoundarySplit]) [81] [46, 46]
+    [[97, 10, 46], [46, 46, 13, 10, 97, 13, 10, 46], [13, 10, 81]] (by simp) (by decide)
 
 end Slimta.C05
